@@ -178,6 +178,8 @@ func C12CLI(r *simkit.Run) {
 		}
 		if after.RevFull() != before.RevFull() {
 			r.Fail(propC12, "refuse-clean", "history-modified-on-refusal", "history-changed was reported but the revision table changed:\n%s\n->\n%s", before.RevFull(), after.RevFull())
+		} else if moved := after.Restamped(before); len(moved) > 0 {
+			r.Fail(propC12, "refuse-clean", "history-restamped-on-refusal", "history-changed was reported but the refused run rewrote executed_at / operator_version of revision %v", moved)
 		}
 		return
 	}
